@@ -74,6 +74,8 @@ def split_constants(ctx, prog):
 def _pts(name, rng, thorough):
     F = Fraction
     base = [F(2) ** k for k in (-30, -20, -10, -5, -3, -2, -1, 0, 1, 2, 3, 5, 10, 17)] + [F(1, 3), F(3, 4), F(5, 4), F(7, 3), F(10), F(100), F(2469, 2), F(100000), F(300000)]
+    # the ends of the format: arguments near minpos / maxpos exercise the exponent arithmetic of the range reductions
+    base += [F(2) ** k for k in (-120, -119, -110, -100, -97, -90, -61, -45, 45, 61, 90, 100, 110, 119, 120)] + [F(3) * F(2) ** k for k in (-118, -99, 98, 117)]
     if thorough:
         base += [F(2) ** k for k in range(-28, 18, 3)] + [F(k, 7) for k in range(1, 40, 3)] + [F(12345), F(99999, 8), F(1, 1000), F(22, 7), F(355, 113)]
     if name in ('sin', 'cos', 'tan'):
@@ -196,7 +198,7 @@ def run(ctx):
     for name, (bound, rng) in UNARY.items():
         pts = _pts(name, rng, thorough)
         if not thorough:
-            pts = pts[::2] if len(pts) > 36 else pts
+            pts = pts[::2] if len(pts) > 80 else pts
         tasks.append((ulp_probe_task, (name, bound, pts), {}))
     for name, bound in BINARY.items():
         pts = [(Fraction(a), Fraction(b)) for a, b in BIN_PTS[name]] + BIN_FRAC.get(name, [])
